@@ -81,28 +81,29 @@ def c04_frames(case):
 
     problems = []
     rng = np.random.default_rng(1)
-    for (ph, fb), regime in it.product([("olivine", "olivine_A"), ("olivine", "olivine_C"), ("enstatite", "enstatite_AB")], ["matrix_dislocation"]):
+    for (ph, fb), regime in it.product([("olivine", "olivine_A"), ("olivine", "olivine_C"), ("enstatite", "enstatite_AB")], ["matrix_dislocation", "frictional_yielding"]):
         n = 12
         A = Rotation.random(n, random_state=4).as_matrix()
         f = rng.dirichlet(np.ones(n))
         L = GENERAL_L / np.abs(np.linalg.eigvalsh((GENERAL_L + GENERAL_L.T) / 2)).max()
         D = (L + L.T) / 2
+        W = rng.normal(size=(3, 3))  # the spin argument is a tensor of the flow: it transforms like L
         args = (getattr(core.DeformationRegime, regime), getattr(core.MineralPhase, ph), getattr(core.MineralFabric, fb), n)
-        dA, df = core.derivatives(*args, A.copy(), f.copy(), D, L, np.zeros((3, 3)), 1.5, 3.5, 5.0, 125.0, 1.0)
+        dA, df = core.derivatives(*args, A.copy(), f.copy(), D, L, W, 1.5, 3.5, 5.0, 125.0, 1.0)
         for Q in Rotation.from_euler("zxz", [[0.7, 1.1, 0.4], [2.0, 0.3, 1.3]]).as_matrix():
             A2 = A @ Q.T
             L2 = Q @ L @ Q.T
-            dA2, df2 = core.derivatives(*args, A2.copy(), f.copy(), (L2 + L2.T) / 2, L2, np.zeros((3, 3)), 1.5, 3.5, 5.0, 125.0, 1.0)
+            dA2, df2 = core.derivatives(*args, A2.copy(), f.copy(), (L2 + L2.T) / 2, L2, Q @ W @ Q.T, 1.5, 3.5, 5.0, 125.0, 1.0)
             if not (np.allclose(dA2, dA @ Q.T, atol=1e-10) and np.allclose(df2, df, atol=1e-10)):
-                problems.append(f"{fb}: instantaneous rates are not frame indifferent (max {np.abs(dA2 - dA @ Q.T).max():.2e}, {np.abs(df2 - df).max():.2e})")
+                problems.append(f"{fb}/{regime}: instantaneous rates are not frame indifferent (max {np.abs(dA2 - dA @ Q.T).max():.2e}, {np.abs(df2 - df).max():.2e})")
         for S in ([1, -1, -1], [-1, 1, -1], [-1, -1, 1]):
             A3 = A.copy()
             A3[::2] = np.diag(S) @ A3[::2]
-            dA3, df3 = core.derivatives(*args, A3.copy(), f.copy(), D, L, np.zeros((3, 3)), 1.5, 3.5, 5.0, 125.0, 1.0)
+            dA3, df3 = core.derivatives(*args, A3.copy(), f.copy(), D, L, W, 1.5, 3.5, 5.0, 125.0, 1.0)
             want = dA.copy()
             want[::2] = np.diag(S) @ want[::2]
             if not (np.allclose(dA3, want, atol=1e-10) and np.allclose(df3, df, atol=1e-10)):
-                problems.append(f"{fb}: lattice two-fold {S} changes the rates")
+                problems.append(f"{fb}/{regime}: lattice two-fold {S} changes the rates")
         # integrated textures
         Q = Rotation.from_euler("zxz", [0.7, 1.1, 0.4]).as_matrix()
         params = _params(number_of_grains=n, phase_assemblage=(getattr(core.MineralPhase, ph),), phase_fractions=(1.0,))
@@ -115,7 +116,7 @@ def c04_frames(case):
         ef = np.abs(m2.fractions[-1] - m1.fractions[-1]).max()
         eF = np.abs(F2 - Q @ F1).max()
         if max(eo, ef, eF) > 1e-5:
-            problems.append(f"{fb}: integrated texture is not frame indifferent (orientations {eo:.2e}, fractions {ef:.2e}, F {eF:.2e})")
+            problems.append(f"{fb}/{regime}: integrated texture is not frame indifferent (orientations {eo:.2e}, fractions {ef:.2e}, F {eF:.2e})")
     return {"reproduced": bool(problems), "detail": problems[:5] or "frame indifferent and symmetry invariant on the replay inputs"}
 
 
